@@ -31,6 +31,12 @@ func allSpecs() map[string]*PropSpec {
 		NotDecided:  "that separator normalisation, sign placement and cost conversion compute the intended number (value semantics of normalizeNumber, parseAmount, sumByCommodity); hledger's own balancing rule.",
 		Rules:       []func(*Ctx){ruleDecimalExact("internal/parser", "internal/analyzer", "internal/workspace", "internal/server"), ruleT3, ruleT4, ruleMapOrder},
 	})
+	add(&PropSpec{
+		ID:          "C12",
+		Explanation: "T1: the workspace index's add and remove methods touch the same aggregates field by field and every add operation has an inverse on the remove side (+= / decrement, keyed append / keyed filter, per-file slot set / delete); an aggregate stored by overwrite and removed by key is reported as non-invertible. T2: the snapshot exports every aggregate. C12-CLEAR: every critical section of the workspace that mutates the resolved tree clears all memoised derived caches unconditionally. C12-REFRESH: the include-tree refresh is a fixpoint that recomputes reachability in every iteration and is invoked whenever the include list changed (element-wise comparison). M-ORDER: no map-iteration order reaches the index.",
+		NotDecided:  "equality of the incremental and the rebuilt view as values over update sequences (needs execution); file-system effects (files unreadable during refresh).",
+		Rules:       []func(*Ctx){ruleT1T2, ruleC12Clear, ruleC12Refresh, ruleMapOrder},
+	})
 	return m
 }
 
